@@ -73,16 +73,16 @@ def check_read(ctx, mol, st, text, graph, case):
     pos_of = {p: k for k, p in enumerate(order)}
     exp_edges = {(min(pos_of[i], pos_of[j]), max(pos_of[i], pos_of[j])): t for i, j, t in mol.bonds}
     ctx.mon("c07_model_compare")
-    if list(graph.nodes) != list(range(n)):
-        ctx.violation("reader-v3000:model", {"what": "nodes are not 0..n-1 in file order", "nodes": list(graph.nodes)[:40], "n": n, "text": text[:3000]}, case)
+    if graph.number_of_nodes() != n:
+        ctx.violation("reader-v3000:model", {"what": "number of atoms differs from the number of non-star atom lines", "nodes": list(graph.nodes)[:40], "n": n, "text": text[:3000]}, case)
         return True
-    got_nodes = ctab.observed_nodes(graph)
+    got_nodes = ctab.observed_nodes(graph)  # in node iteration order = file order
     for k in range(n):
         if got_nodes[k] != exp_nodes[k]:
             ctx.violation("reader-v3000:model", {"what": "atom attributes differ from what the file states", "position": k, "stated": exp_nodes[k], "read": got_nodes[k],
                                                   "text": text[:3000]}, case)
             return True
-    got_edges = ctab.observed_edges(graph)
+    got_edges = ctab.observed_edges(graph, by_position=True)
     if got_edges != exp_edges:
         ctx.violation("reader-v3000:model", {"what": "bonds differ from what the file states", "only_stated": [list(map(str, x)) for x in sorted(set(exp_edges.items()) - set(got_edges.items()))][:5],
                                               "only_read": [list(map(str, x)) for x in sorted(set(got_edges.items()) - set(got_edges.items() & exp_edges.items()))][:5], "text": text[:3000]}, case)
@@ -181,13 +181,16 @@ def run(ctx):
         case = {"mol": mol.to_json(), "vseed": f"{ctx.seed}/{ctx.shard}/{k}"}
         run_case(ctx, case)
         if k % 10 == 0:
-            relational_defaults(ctx, mol, case)
+            common.case_guard(ctx, {**case, "relational": True}, lambda c_, case_: relational_defaults(c_, mol, case_))
     # corpus molfiles: (a) the file as shipped, judged against the harness's own reader; (b) re-rendered with random spellings
     import tucan.io.molfile_reader as mr
     for path, mol in common.corpus_mols(ctx):
         ctx.evaluations += 1
-        g = mr.graph_from_file(path)
-        check_read(ctx, mol, V3Style(), open(path).read(), g, {"mol": mol.to_json(), "vseed": f"corpus/{mol.name}", "corpus_file": path})
+        ccase = {"mol": mol.to_json(), "vseed": f"corpus/{mol.name}", "corpus_file": path}
+        g = common.case_guard(ctx, ccase, lambda c_, case_: mr.graph_from_file(path))
+        if g is None:
+            continue
+        check_read(ctx, mol, V3Style(), open(path).read(), g, ccase)
         ctx.count("cov_corpus_files_vs_own_reader")
         if len(mol.atoms) <= 80:
             run_case(ctx, {"mol": mol.to_json(), "vseed": f"{ctx.seed}/corpus/{mol.name}"})
